@@ -66,6 +66,41 @@ def is_channel_plain(t, i):
     return False
 
 
+def normal_divisions(ctx, rule):
+    """the three colour divisions of blend::normal divide by res_a = src_a' + back_a - mul_un8(back_a, src_a') (src_a' the source alpha
+    scaled by the opacity).  With H3: mul_un8(x, y) <= min(x, y) for 0 <= x, y <= 255 this is >= max(src_a', back_a), so it is non-zero
+    wherever back_a != 0 is known - which is exactly what the transparent-backdrop exit in front of it provides.  Without that exit
+    (seeds C02-g, C06-l, C05-n removed it as 'covered by the general formula') a zero opacity product over a transparent pixel
+    divides by zero.  Every division in normal must have this divisor and lie under back_a != 0; anything else is reported."""
+    import panics as _p
+    import poly as P
+    fx = ctx.fx
+    b = ctx.anchor(BL + 'normal')
+    if b is None:
+        return
+    n = 0
+    for s_ in _p.inventory(fx, [b]):
+        if s_.kind != 'div0':
+            continue
+        n += 1
+        D = s_.detail.get('term')
+        if D is None:
+            ctx.inst(rule, 'normal#division', False, 'blend::normal: a division whose divisor the analysis cannot name', s_.span, key=ctx.key(b.name, rule, 'division', ''))
+            continue
+        pd = P.poly(D)
+        atoms = {k[0]: v for k, v in pd.items() if len(k) == 1}
+        back = [a for a, v in atoms.items() if v == 1 and is_alpha_of(a, 1)]
+        srcs = [a for a, v in atoms.items() if v == 1 and a[0] == 'call' and a[1] == BL + 'mul_un8' and any(is_alpha_of(x, 2) for x in a[2])]
+        prod = [a for a, v in atoms.items() if v == -1 and a[0] == 'call' and a[1] == BL + 'mul_un8']
+        shape = len(pd) == 3 and len(back) == 1 and len(srcs) == 1 and len(prod) == 1 and \
+            {P.canon(x) for x in prod[0][2]} == {P.canon(back[0]), P.canon(srcs[0])}
+        guarded = shape and any(op in ('Ne', 'Gt') and P.canon(l_) == P.canon(back[0]) and q.const_val(r_) == 0 for op, l_, r_ in q.facts_at(b, s_.bb))
+        ctx.inst(rule, 'normal#division', shape and guarded, 'blend::normal divides by %s; must be src_a\' + back_a - mul_un8(back_a, src_a\') %s under back_a != 0 %s'
+                 % (show(D)[:70], 'yes' if shape else 'NO', 'yes' if guarded else 'NO (a zero opacity product over a transparent backdrop divides by zero)'),
+                 s_.span, key=ctx.key(b.name, rule, 'division', ''))
+    ctx.floor('divisions in blend::normal', n, 3)
+
+
 def edge_defs(body, sw, succ, local=0):
     reg = q.edge_region(body, sw, succ)
     return [d for d in q.defs_in(body, reg) if d[0] == local and not d[1]]
@@ -76,7 +111,8 @@ def run(ctx):
     ctx.rules = ['W1 mode = blender(baseline)', 'W2 baseline tails into normal with the source alpha', 'W3 blender wiring',
                  'W4 normal edges and alpha origin', 'W5 merge alpha and invisible-operand edges',
                  'W6 the opacity handed to the blend function is the layer x cel product on every rasterising path']
-    ctx.assumptions += ['H1: blend8(a, a, o) == a for all o (arithmetic fact about blend8; not decided statically)',
+    ctx.assumptions += ['H3: mul_un8(x, y) <= min(x, y) for 0 <= x, y <= 255 (arithmetic fact about mul_un8; used to discharge the divisions of normal)',
+                        'H1: blend8(a, a, o) == a for all o (arithmetic fact about blend8; not decided statically)',
                         'H2: merge(c, c, o) == c for a visible colour c (follows from H1; not decided statically)']
     ctx.explanation = (
         'Static check of the call structure of blend.rs. With W1-W3 every mode\'s result is merge(merge(N, X, .), X, .) where N and X '
@@ -298,6 +334,7 @@ def run(ctx):
         ctx.inst('W5', '%s %s' % (s_.body.name.split('::')[-1], s_.kind), why is not None, '%s in %s: %s' % (s_.kind, s_.body.name.split('asefile::')[-1],
                  why or 'an assertion in the blend arithmetic that is not shown to hold for every backdrop, source and opacity'), s_.span,
                  key=ctx.key(s_.body.name, 'W5', s_.kind, ''))
+    normal_divisions(ctx, 'W4')
     # W6: the laws are stated over (layer opacity, cel opacity); both rasterisers must hand their product to the blend function
     render.opacity_and_mode(ctx, rule_o='W6', rule_m=None)
     # and no pixel is exempted from the blend function by anything but the canvas clip (an 'identity shortcut' in the rasteriser
